@@ -7,4 +7,325 @@ import Cpl.Spec.Ring
 namespace Cpl
 open Py
 
+/-! ## `_index_strides` -/
+
+theorem fdiv_neg_window (r : Nat) : fdiv (-(2 * (r : Int) + 1)) 2 + 1 = -(r : Int) := by
+  unfold fdiv
+  rw [Int.fdiv_eq_ediv_of_nonneg _ (by omega)]; omega
+
+theorem fdiv_pos_window (r : Nat) : fdiv (2 * (r : Int) + 1) 2 = (r : Int) := by
+  unfold fdiv
+  rw [Int.fdiv_eq_ediv_of_nonneg _ (by omega)]; omega
+
+theorem sliceFrom_range_neg (N r : Nat) (h1 : 1 ≤ r) (_h2 : r ≤ N) :
+    sliceFrom (List.range N) (-(r : Int)) = (List.range N).drop (N - r) := by
+  simp only [sliceFrom, List.length_range]
+  have : (if -(r : Int) < 0 then max ((N : Int) + -(r : Int)) 0 else min (-(r : Int)) N).toNat
+      = N - r := by
+    have : -(r : Int) < 0 := by omega
+    simp only [this, if_true]; omega
+  rw [this]
+
+theorem sliceTo_range_pos (N r : Nat) (h2 : r ≤ N) :
+    sliceTo (List.range N) (r : Int) = (List.range N).take r := by
+  simp only [sliceTo, List.length_range]
+  have : (if (r : Int) < 0 then max ((N : Int) + (r : Int)) 0 else min (r : Int) N).toNat = r := by
+    have : ¬ (r : Int) < 0 := by omega
+    simp only [this, if_false]; omega
+  rw [this]
+
+/-- The extended index array `arr[-r:] ++ arr ++ arr[:r]`. -/
+def extIdx (N r : Nat) : List Nat :=
+  (List.range N).drop (N - r) ++ List.range N ++ (List.range N).take r
+
+theorem extIdx_length (N r : Nat) (h2 : r ≤ N) : (extIdx N r).length = N + 2 * r := by
+  simp [extIdx]; omega
+
+theorem extIdx_get (N r k : Nat) (h1 : 1 ≤ r) (h2 : r ≤ N) (hk : k < N + 2 * r) :
+    (extIdx N r)[k]? = some ((k + N - r) % N) := by
+  unfold extIdx
+  rcases Nat.lt_or_ge k r with h | h
+  · rw [List.append_assoc, List.getElem?_append_left (by simp; omega)]
+    rw [List.getElem?_drop, List.getElem?_range (by omega)]
+    congr 1
+    rw [Nat.mod_eq_of_lt (by omega)]; omega
+  · rcases Nat.lt_or_ge k (r + N) with h' | h'
+    · rw [List.getElem?_append_left (by simp; omega), List.getElem?_append_right (by simp; omega)]
+      simp only [List.length_drop, List.length_range]
+      rw [List.getElem?_range (by omega)]
+      congr 1
+      have : k + N - r = (k - r) + N := by omega
+      rw [this, Nat.add_mod_right, Nat.mod_eq_of_lt (by omega)]; omega
+    · rw [List.getElem?_append_right (by simp; omega)]
+      simp only [List.length_append, List.length_drop, List.length_range]
+      rw [List.getElem?_take_of_lt (by omega), List.getElem?_range (by omega)]
+      congr 1
+      have : k + N - r = (k - r - N) + N + N := by omega
+      rw [this, Nat.add_mod_right, Nat.add_mod_right, Nat.mod_eq_of_lt (by omega)]; omega
+
+theorem indexStrides_eq (N r : Nat) (h1 : 1 ≤ r) (h2 : r ≤ N) :
+    indexStrides N r = (List.range N).map fun c => ((extIdx N r).drop c).take (2 * r + 1) := by
+  simp only [indexStrides, fdiv_neg_window, fdiv_pos_window]
+  rw [sliceFrom_range_neg N r h1 h2, sliceTo_range_pos N r h2]
+  change (List.range ((extIdx N r).length + 1 - (2 * r + 1))).map _ = _
+  rw [extIdx_length N r h2]
+  have : N + 2 * r + 1 - (2 * r + 1) = N := by omega
+  rw [this]; rfl
+
+theorem indexStrides_eq_ring (N r : Nat) (h1 : 1 ≤ r) (h2 : r ≤ N) :
+    indexStrides N r
+      = (List.range N).map fun c => (List.range (2 * r + 1)).map fun j => (c + j + N - r) % N := by
+  rw [indexStrides_eq N r h1 h2]
+  apply List.map_congr_left
+  intro c hc
+  have hc : c < N := by simpa using hc
+  apply List.ext_getElem?
+  intro j
+  rcases Nat.lt_or_ge j (2 * r + 1) with hj | hj
+  · rw [List.getElem?_take_of_lt hj, List.getElem?_drop,
+      extIdx_get N r (c + j) h1 h2 (by omega), List.getElem?_map, List.getElem?_range hj]
+    rfl
+  · rw [List.getElem?_eq_none (by simp; omega), List.getElem?_eq_none (by simp; omega)]
+
+section
+variable {σ α : Type}
+
+theorem neighbourhoods_eq_map_window [Inhabited α] (cells : List α) (r : Nat) (h1 : 1 ≤ r)
+    (h2 : r ≤ cells.length) :
+    neighbourhoods cells r = (List.range cells.length).map (Spec.window cells r) := by
+  unfold neighbourhoods
+  rw [indexStrides_eq_ring _ r h1 h2, List.map_map]
+  apply List.map_congr_left
+  intro c _
+  simp [gather, Spec.window, List.map_map, Function.comp_def]
+
+theorem window_length' [Inhabited α] (cells : List α) (r c : Nat) :
+    (Spec.window cells r c).length = 2 * r + 1 := by
+  simp [Spec.window]
+
+/-! ## The unmemoized loop is the specification step -/
+
+theorem plainLoop_eq_stepCells [Inhabited α] (rule : Rule1 σ α) (cells : List α) (r t : Nat) :
+    ∀ (n c : Nat) (s : σ),
+      plainLoop rule t ((List.range' c n).map (Spec.window cells r)) c s
+        = Spec.stepCells rule cells r t (List.range' c n) s
+  | 0, _, _ => rfl
+  | n + 1, c, s => by
+    simp only [List.range'_succ, List.map_cons, plainLoop, Spec.stepCells]
+    rw [plainLoop_eq_stepCells rule cells r t n (c + 1)]
+
+theorem stepCells_length [Inhabited α] (rule : Rule1 σ α) (cells : List α) (r t : Nat) :
+    ∀ (cs : List Nat) (s : σ), (Spec.stepCells rule cells r t cs s).1.length = cs.length
+  | [], _ => rfl
+  | c :: cs, s => by
+    simp only [Spec.stepCells, List.length_cons]
+    rw [stepCells_length rule cells r t cs]
+
+theorem spec_step_length [Inhabited α] (rule : Rule1 σ α) (cells : List α) (r t : Nat) (s : σ) :
+    (Spec.step rule cells r t s).1.length = cells.length := by
+  simp [Spec.step, stepCells_length]
+
+theorem step1_plain [DecidableEq α] [Inhabited α] (rule : Rule1 σ α) (r : Nat) (cells : List α)
+    (t : Nat) (cs : Caches α) (s : σ) (h1 : 1 ≤ r) (h2 : r ≤ cells.length) :
+    step1 .plain rule r cells t cs s
+      = ((Spec.step rule cells r t s).1, cs, (Spec.step rule cells r t s).2) := by
+  simp only [step1]
+  rw [neighbourhoods_eq_map_window cells r h1 h2, List.range_eq_range', plainLoop_eq_stepCells]
+  simp only [Spec.step, List.range_eq_range']
+
+theorem fixedLoop_plain [DecidableEq α] [Inhabited α] (rule : Rule1 σ α) (r : Nat) (h1 : 1 ≤ r) :
+    ∀ (k t : Nat) (cells : List α) (cs : Caches α) (s : σ), r ≤ cells.length →
+      fixedLoop .plain rule r k t cells cs s
+        = ((Spec.run rule r k t cells s).1, cs, (Spec.run rule r k t cells s).2)
+  | 0, _, _, _, _, _ => rfl
+  | k + 1, t, cells, cs, s, h2 => by
+    simp only [fixedLoop, Spec.run]
+    rw [step1_plain rule r cells t cs s h1 h2]
+    simp only
+    rw [fixedLoop_plain rule r h1 k (t + 1) _ cs _ (by rw [spec_step_length]; exact h2)]
+
+/-! ## Shape of the specification run, call trace -/
+
+theorem run_length [Inhabited α] (rule : Rule1 σ α) (r : Nat) :
+    ∀ (k t : Nat) (cells : List α) (s : σ), (Spec.run rule r k t cells s).1.length = k
+  | 0, _, _, _ => rfl
+  | k + 1, t, cells, s => by
+    simp only [Spec.run, List.length_cons]
+    rw [run_length rule r k]
+
+theorem run_row_length [Inhabited α] (rule : Rule1 σ α) (r : Nat) :
+    ∀ (k t : Nat) (cells : List α) (s : σ),
+      ∀ row ∈ (Spec.run rule r k t cells s).1, row.length = cells.length
+  | 0, _, _, _ => by simp [Spec.run]
+  | k + 1, t, cells, s => by
+    intro row hrow
+    simp only [Spec.run, List.mem_cons] at hrow
+    rcases hrow with h | h
+    · rw [h, spec_step_length]
+    · rw [run_row_length rule r k _ _ _ row h, spec_step_length]
+
+theorem stepCells_logged [Inhabited α] (rule : Rule1 σ α) (cells : List α) (r t : Nat) :
+    ∀ (cs : List Nat) (s : σ) (log : List (List α × Nat × Nat)),
+      Spec.stepCells (logged rule) cells r t cs (s, log)
+        = ((Spec.stepCells rule cells r t cs s).1,
+           ((Spec.stepCells rule cells r t cs s).2,
+            log ++ cs.map fun c => (Spec.window cells r c, c, t)))
+  | [], _, _ => by simp [Spec.stepCells]
+  | c :: cs, s, log => by
+    simp only [Spec.stepCells, logged]
+    rw [stepCells_logged rule cells r t cs]
+    simp [List.append_assoc]
+
+theorem run_logged' [Inhabited α] (rule : Rule1 σ α) (r : Nat) :
+    ∀ (k t : Nat) (cells : List α) (s : σ) (log : List (List α × Nat × Nat)),
+      Spec.run (logged rule) r k t cells (s, log)
+        = ((Spec.run rule r k t cells s).1,
+           ((Spec.run rule r k t cells s).2,
+            log ++ Spec.callsOfRows r t cells (Spec.run rule r k t cells s).1))
+  | 0, _, _, _, _ => by simp [Spec.run, Spec.callsOfRows]
+  | k + 1, t, cells, s, log => by
+    simp only [Spec.run, Spec.step, Spec.callsOfRows]
+    rw [stepCells_logged rule cells r t]
+    simp only
+    rw [run_logged' rule r k (t + 1)]
+    simp [List.append_assoc]
+
+theorem callsOfRows_length' [Inhabited α] (r : Nat) :
+    ∀ (t : Nat) (cells : List α) (rows : List (List α)),
+      (∀ row ∈ rows, row.length = cells.length) →
+      (Spec.callsOfRows r t cells rows).length = cells.length * rows.length
+  | _, _, [], _ => by simp [Spec.callsOfRows]
+  | t, cells, row :: rows, h => by
+    have hrow : row.length = cells.length := h row (by simp)
+    have hrows : ∀ row' ∈ rows, row'.length = row.length := by
+      intro row' hr
+      rw [hrow]; exact h row' (by simp [hr])
+    simp only [Spec.callsOfRows, List.length_append, List.length_map, List.length_range,
+      List.length_cons]
+    rw [callsOfRows_length' r (t + 1) row rows hrows, hrow, Nat.mul_succ]
+    omega
+
+/-! ## `fixedLoop`: unfolding, length, prefixes -/
+
+theorem fixedLoop_succ [DecidableEq α] [Inhabited α] (mode : Mode) (rule : Rule1 σ α)
+    (r k t : Nat) (cells : List α) (cs : Caches α) (s : σ) :
+    fixedLoop mode rule r (k + 1) t cells cs s
+      = ((step1 mode rule r cells t cs s).1 ::
+          (fixedLoop mode rule r k (t + 1) (step1 mode rule r cells t cs s).1
+            (step1 mode rule r cells t cs s).2.1 (step1 mode rule r cells t cs s).2.2).1,
+         (fixedLoop mode rule r k (t + 1) (step1 mode rule r cells t cs s).1
+            (step1 mode rule r cells t cs s).2.1 (step1 mode rule r cells t cs s).2.2).2) := rfl
+
+theorem fixedLoop_length [DecidableEq α] [Inhabited α] (mode : Mode) (rule : Rule1 σ α) (r : Nat) :
+    ∀ (k t : Nat) (cells : List α) (cs : Caches α) (s : σ),
+      (fixedLoop mode rule r k t cells cs s).1.length = k
+  | 0, _, _, _, _ => rfl
+  | k + 1, t, cells, cs, s => by
+    rw [fixedLoop_succ]
+    simp only [List.length_cons]
+    rw [fixedLoop_length mode rule r k]
+
+theorem fixedLoop_take [DecidableEq α] [Inhabited α] (mode : Mode) (rule : Rule1 σ α) (r : Nat) :
+    ∀ (i k t : Nat) (cells : List α) (cs : Caches α) (s : σ), i ≤ k →
+      (fixedLoop mode rule r i t cells cs s).1 = (fixedLoop mode rule r k t cells cs s).1.take i
+  | 0, _, _, _, _, _, _ => by simp [fixedLoop]
+  | i + 1, 0, _, _, _, _, h => by omega
+  | i + 1, k + 1, t, cells, cs, s, h => by
+    rw [fixedLoop_succ, fixedLoop_succ]
+    simp only [List.take_succ_cons]
+    rw [fixedLoop_take mode rule r i k _ _ _ _ (by omega)]
+
+/-! ## `dynLoop` against `fixedLoop` -/
+
+theorem dynLoop_eq_fixedLoop [DecidableEq α] [Inhabited α] (mode : Mode) (rule : Rule1 σ α)
+    (r : Nat) (pred : List (List α) → Nat → Bool) :
+    ∀ (m fuel t : Nat) (acc : List (List α)) (cells : List α) (cs : Caches α) (s : σ),
+      (m = 0 ∨ mode ≠ .bad) → m < fuel →
+      (∀ i, i < m → pred (acc ++ (fixedLoop mode rule r i t cells cs s).1) (t + i) = true) →
+      pred (acc ++ (fixedLoop mode rule r m t cells cs s).1) (t + m) = false →
+      dynLoop mode rule r pred fuel t acc cells cs s
+        = some (.ok (acc ++ (fixedLoop mode rule r m t cells cs s).1,
+                     (fixedLoop mode rule r m t cells cs s).2.2))
+  | 0, fuel, t, acc, cells, cs, s, _, hfuel, _, hno => by
+    obtain ⟨f, rfl⟩ : ∃ f, fuel = f + 1 := ⟨fuel - 1, by omega⟩
+    have hno' : pred acc t = false := by simpa [fixedLoop] using hno
+    simp [dynLoop, hno', fixedLoop]
+  | m + 1, fuel, t, acc, cells, cs, s, hm, hfuel, hyes, hno => by
+    obtain ⟨f, rfl⟩ : ∃ f, fuel = f + 1 := ⟨fuel - 1, by omega⟩
+    have hm' : mode ≠ .bad := by
+      rcases hm with h | h
+      · omega
+      · exact h
+    have h0 : pred acc t = true := by simpa [fixedLoop] using hyes 0 (by omega)
+    simp only [dynLoop, h0, if_true, hm', if_false]
+    rw [dynLoop_eq_fixedLoop mode rule r pred m f (t + 1) _ _ _ _ (Or.inr hm') (by omega)]
+    · rw [fixedLoop_succ]
+      simp [List.append_assoc]
+    · intro i hi
+      have := hyes (i + 1) (by omega)
+      rw [fixedLoop_succ] at this
+      simpa [List.append_assoc, Nat.add_assoc, Nat.add_comm 1 i] using this
+    · have := hno
+      rw [fixedLoop_succ] at this
+      simpa [List.append_assoc, Nat.add_assoc, Nat.add_comm 1 m] using this
+
+theorem dynLoop_ok_inv [DecidableEq α] [Inhabited α] (mode : Mode) (rule : Rule1 σ α)
+    (r : Nat) (pred : List (List α) → Nat → Bool) :
+    ∀ (fuel t : Nat) (acc : List (List α)) (cells : List α) (cs : Caches α) (s : σ)
+      (res : List (List α)) (s' : σ),
+      dynLoop mode rule r pred fuel t acc cells cs s = some (.ok (res, s')) →
+      ∃ m, (∀ i, i < m → pred (acc ++ (fixedLoop mode rule r i t cells cs s).1) (t + i) = true) ∧
+        pred (acc ++ (fixedLoop mode rule r m t cells cs s).1) (t + m) = false ∧
+        res = acc ++ (fixedLoop mode rule r m t cells cs s).1 ∧
+        s' = (fixedLoop mode rule r m t cells cs s).2.2
+  | 0, _, _, _, _, _, _, _, h => by simp [dynLoop] at h
+  | f + 1, t, acc, cells, cs, s, res, s', h => by
+    by_cases hp : pred acc t = true
+    · by_cases hm : mode = .bad
+      · simp [dynLoop, hp, hm] at h
+      · simp only [dynLoop, hp, if_true, hm, if_false] at h
+        obtain ⟨m, hyes, hno, hres, hs⟩ := dynLoop_ok_inv mode rule r pred f _ _ _ _ _ _ _ h
+        refine ⟨m + 1, ?_, ?_, ?_, ?_⟩
+        · intro i hi
+          cases i with
+          | zero => simpa [fixedLoop] using hp
+          | succ i =>
+            have := hyes i (by omega)
+            rw [fixedLoop_succ]
+            simpa [List.append_assoc, Nat.add_assoc, Nat.add_comm 1 i] using this
+        · rw [fixedLoop_succ]
+          simpa [List.append_assoc, Nat.add_assoc, Nat.add_comm 1 m] using hno
+        · rw [fixedLoop_succ]
+          simpa [List.append_assoc] using hres
+        · rw [fixedLoop_succ]
+          exact hs
+    · have hp' : pred acc t = false := by simpa using hp
+      simp only [dynLoop, hp', Bool.false_eq_true, if_false, Option.some.injEq, Except.ok.injEq,
+        Prod.mk.injEq] at h
+      refine ⟨0, ?_, ?_, ?_, ?_⟩
+      · intro i hi; omega
+      · simpa [fixedLoop] using hp'
+      · simp [fixedLoop, h.1]
+      · simp [fixedLoop, h.2]
+
+/-! ## `until_fixed_point` looks at the last two rows -/
+
+theorem untilFixedPoint_take [DecidableEq α] (ca : List (List α)) (i t : Nat) (hi : i < ca.length) :
+    untilFixedPoint (ca.take (i + 1)) t
+      = if 1 ≤ i then !(decide (ca[i - 1]? = ca[i]?)) else true := by
+  have hlen : (ca.take (i + 1)).length = i + 1 := by
+    rw [List.length_take]; omega
+  unfold untilFixedPoint
+  rw [hlen]
+  by_cases h : 1 ≤ i
+  · have h' : i + 1 > 1 := by omega
+    simp only [h', h, if_true]
+    have e1 : i + 1 - 2 = i - 1 := by omega
+    have e2 : i + 1 - 1 = i := by omega
+    rw [e1, e2, List.getElem?_take_of_lt (by omega), List.getElem?_take_of_lt (by omega)]
+  · have h' : ¬ i + 1 > 1 := by omega
+    simp only [h', h, if_false]
+
+end
+
 end Cpl
